@@ -233,60 +233,49 @@ fn predict_value_dist(unit: EnergyRateUnit, du: DistanceUnit, k_dist: f64, adj: 
 // ---------------------------------------------------------------------------------------------
 // (c) vehicles on the state model they declare
 
-fn bev_edge() {
-    let rate = any_mag(1e-6, 1e1);
-    let cap = 60.0;
-    let start_soc = any_in(0.0, 100.0);
-    let bev = BEV::new(
-        String::new(),
-        record(rate, EnergyRateUnit::KilowattHoursPerMile, 0.2, 1.0),
-        Energy::new(cap),
-        Energy::new(cap * 0.5),
-        EnergyUnit::KilowattHours,
-    );
-    let sm = StateModel::new(bev.state_features());
-    assert!(sm.len() == 2);
-    let e0 = any_in(0.0, 1e3);
-    let mut state = vec![StateVar(e0), StateVar(start_soc)];
-    let (s, g) = any_speed_grade();
-    let dist = 2.0;
-    let predicted = bev.prediction_model_record.predict(s, g, (Distance::new(dist), DistanceUnit::Miles)).unwrap().0.as_f64();
-    let r = bev.consume_energy(s, g, (Distance::new(dist), DistanceUnit::Miles), &mut state, &sm);
-    kani::cover!(r.is_ok() && rate < 0.0, "regeneration");
-    kani::cover!(r.is_ok() && state[1].0 == 0.0, "battery ran empty");
-    assert!(r.is_ok());
-    assert!(state.len() == 2);
-    assert!(state[0].0 == e0 + predicted, "the energy slot grows by exactly the predicted energy");
-    assert!(state[1].0 >= 0.0 && state[1].0 <= 100.0, "state of charge stays within 0..100 percent");
-    if predicted > 0.0 {
-        assert!(state[1].0 <= start_soc, "consumption never raises the charge");
-    }
-    if predicted < 0.0 {
-        assert!(state[1].0 >= start_soc, "regeneration never lowers the charge");
-    }
-    std::mem::forget(bev);
-    std::mem::forget(sm);
-    std::mem::forget(state);
-}
-
+/// ICE on the one-feature state model it declares: the fuel slot grows by exactly the energy the
+/// prediction record returns for the edge (previous content pinned, rate symbolic, container
+/// lookups stubbed as in soc_state)
 fn ice_edge() {
     let rate = any_mag(1e-6, 1e1);
     let ice = ICE::new(String::new(), record(rate, EnergyRateUnit::GallonsGasolinePerMile, 0.02, 1.0)).unwrap();
     let sm = StateModel::new(ice.state_features());
     assert!(sm.len() == 1);
-    let e0 = any_in(0.0, 1e3);
+    let e0: f64 = 3.0;
     let mut state = vec![StateVar(e0)];
-    let (s, g) = any_speed_grade();
+    let s = (Speed::new(55.0), SpeedUnit::MilesPerHour);
+    let g = (Grade::new(0.01), GradeUnit::Decimal);
     let dist = 2.0;
-    let predicted = ice.prediction_model_record.predict(s, g, (Distance::new(dist), DistanceUnit::Miles)).unwrap().0.as_f64();
     let r = ice.consume_energy(s, g, (Distance::new(dist), DistanceUnit::Miles), &mut state, &sm);
-    kani::cover!(r.is_ok(), "edge traversed");
+    kani::cover!(r.is_ok() && rate > 0.0, "fuel burnt");
     assert!(r.is_ok());
     assert!(state.len() == 1);
-    assert!(state[0].0 == e0 + predicted, "the fuel slot grows by exactly the predicted energy");
+    // gallons = rate (gal/mi) x 2 mi, adjustment 1
+    let lo = rate * (dist * (1.0 - 2e-3));
+    let hi = rate * (dist * (1.0 + 2e-3));
+    let used = state[0].0 - e0;
+    if rate > 1e-3 {
+        assert!(used >= lo * (1.0 - 1e-6) - 1e-9 && used <= hi * (1.0 + 1e-6) + 1e-9, "the fuel slot grows by rate x distance");
+    }
+    assert!((used > 0.0) == (rate > 0.0) || used == 0.0, "direction of the change follows the sign of the rate");
+    std::mem::forget(r);
     std::mem::forget(ice);
     std::mem::forget(sm);
     std::mem::forget(state);
+}
+
+/// best-case energy used to order the search = ideal rate x distance (no state model involved)
+fn best_case() {
+    let ideal = any_in(1e-6, 1e1);
+    let ice = ICE::new(String::new(), record(0.5, EnergyRateUnit::GallonsGasolinePerMile, ideal, 1.7)).unwrap();
+    let dist_km: f64 = 16.09344; // ten miles
+    let r = ice.best_case_energy((Distance::new(dist_km), DistanceUnit::Kilometers));
+    kani::cover!(r.is_ok(), "estimate produced");
+    assert!(r.is_ok());
+    let (e, u) = r.unwrap();
+    assert!(u == EnergyUnit::GallonsGasoline);
+    assert!(within(ideal, e.as_f64(), 10.0, 2e-3), "best case = ideal rate x distance, without the real-world adjustment");
+    std::mem::forget(ice);
 }
 
 pub mod q {
@@ -307,6 +296,10 @@ pub mod q {
     #[kani::proof]
     #[kani::stub(std::fmt::format, stub_format)]
     #[kani::unwind(4)]
+    pub fn best_case_energy() { best_case() }
+    #[kani::proof]
+    #[kani::stub(std::fmt::format, stub_format)]
+    #[kani::unwind(4)]
     pub fn predict_kwhpmi_mi() { predict_value(EnergyRateUnit::KilowattHoursPerMile, EnergyUnit::KilowattHours, DistanceUnit::Miles, 1.0, 1.1, 2.5) }
     #[kani::proof]
     #[kani::stub(std::fmt::format, stub_format)]
@@ -316,6 +309,18 @@ pub mod q {
     #[kani::stub(std::fmt::format, stub_format)]
     #[kani::unwind(4)]
     pub fn predict_kwhpkm_m_dist() { predict_value_dist(EnergyRateUnit::KilowattHoursPerKilometer, DistanceUnit::Meters, 0.001, 1.3, -0.2) }
+}
+
+/// documented attempt, in no tier: no verdict in 900 s even with the previous content pinned
+pub mod attempts {
+    use super::*;
+    #[kani::proof]
+    #[kani::stub(std::fmt::format, stub_format)]
+    #[kani::stub(routee_compass_core::model::state::state_model::StateModel::get_names, soc_state::stub_names)]
+    #[kani::stub(routee_compass_core::util::compact_ordered_hash_map::CompactOrderedHashMap::get_index, soc_state::one_entry_get_index)]
+    #[kani::stub(routee_compass_core::util::compact_ordered_hash_map::CompactOrderedHashMap::get, soc_state::one_entry_get)]
+    #[kani::unwind(16)]
+    pub fn ice_consume() { ice_edge() }
 }
 
 pub mod t {
@@ -334,15 +339,3 @@ pub mod t {
     pub fn predict_kwhpm_mi_dist() { predict_value_dist(EnergyRateUnit::KilowattHoursPerMeter, DistanceUnit::Miles, 1609.344, 0.9, 0.0003) }
 }
 
-/// attempts: by-name state model access
-pub mod a {
-    use super::*;
-    #[kani::proof]
-    #[kani::stub(std::fmt::format, stub_format)]
-    #[kani::unwind(20)]
-    pub fn bev_consume() { bev_edge() }
-    #[kani::proof]
-    #[kani::stub(std::fmt::format, stub_format)]
-    #[kani::unwind(20)]
-    pub fn ice_consume() { ice_edge() }
-}
